@@ -375,6 +375,15 @@ func (c *UConn) handshakeContext(ctx context.Context) (ret error) {
 	if c.isClient {
 		err := c.BuildHandshakeState()
 		if err != nil {
+			if c.quic != nil {
+				// UQUICConn.Start, HandleData and Close wait on these
+				// channels: record the error and release them, as the
+				// end of this function does for a failed handshake.
+				c.handshakeErr = fmt.Errorf("%w%.0w", err, AlertError(alertInternalError))
+				close(c.quic.blockedc)
+				close(c.quic.signalc)
+				return c.handshakeErr
+			}
 			return err
 		}
 	}
